@@ -48,12 +48,13 @@ inductive Input (N : Nat)
 | hup | prop (v : Nat) | selfAck | beat | restart | recv (m : Msg1 N)
 
 def Msg1.term : Msg1 N → Nat
-| .vote t .. => t | .voteResp t .. => t | .app t .. => t | .appResp t .. => t | .hb t .. => t
+| .vote t .. => t | .voteResp t .. => t | .app t .. => t | .appResp t .. => t | .hb t .. => t | .snap t .. => t
 def Msg1.dst : Msg1 N → Fin N
 | .vote _ _ d .. => d | .voteResp _ _ d .. => d | .app _ _ d .. => d | .appResp _ _ d .. => d | .hb _ _ d .. => d
+| .snap _ _ d .. => d
 /-- `becomeFollower(m.Term, m.From)` for MsgApp/MsgHeartbeat, `None` otherwise -/
 def Msg1.leadHint : Msg1 N → Option (Fin N)
-| .app _ src .. => some src | .hb _ src .. => some src | _ => none
+| .app _ src .. => some src | .hb _ src .. => some src | .snap _ src .. => some src | _ => none
 
 /-- a message whose term equals the node's (after the term handling of `Step`) -/
 def handleSame (i : Fin N) (n : Node1 N) : Msg1 N → Node1 N × List (Msg1 N)
@@ -78,6 +79,10 @@ def handleSame (i : Fin N) (n : Node1 N) : Msg1 N → Node1 N × List (Msg1 N)
     if n.role = .leader ∧ rej = false then (maybeCommit (ackN n src idx), []) else (n, [])
 | .hb _ src _ c =>
     if n.role = .leader then (n, []) else (beatN n src c, [])
+| .snap t src _ k ents =>
+    if n.role = .leader then (n, [])
+    else if k ≤ n.commit then (followN n src, [.appResp t i src n.commit false])
+    else (restoreN n src k ents, [.appResp t i src k false])
 
 def handle (i : Fin N) (n : Node1 N) : Input N → Node1 N × List (Msg1 N)
 | .hup =>
@@ -99,7 +104,8 @@ def leaderOut (n : Node1 N) (i : Fin N) (m : Msg1 N) : Prop :=
   n.role = .leader ∧
   ((∃ dst prev cnt, prev ≤ n.log.length ∧
       m = .app n.term i dst prev (termAt n.log prev) ((n.log.drop prev).take cnt) n.commit) ∨
-   (∃ dst, m = .hb n.term i dst (min (n.matchI dst) n.commit)))
+   (∃ dst, m = .hb n.term i dst (min (n.matchI dst) n.commit)) ∨
+   (∃ dst k, 1 ≤ k ∧ k ≤ n.commit ∧ k ≤ n.log.length ∧ m = .snap n.term i dst k (n.log.take k)))
 
 def enabled (s : Sys1 N) (i : Fin N) : Input N → Prop
 | .recv m => s.net m ∧ m.dst = i
@@ -231,6 +237,20 @@ theorem outcome_same (s : Sys1 N) (i : Fin N) (m : Msg1 N) (hm : s.net m) (hd : 
     · exact Outcome.stay s d
     · rename_i hnl
       exact outcome_step (Step1.beat s d src t c hm ht.symm hnl) (fun _ h => h) (fun _ h => by cases h)
+  | snap t src d k ents =>
+    simp only [Msg1.dst] at hd; subst hd
+    simp only [Msg1.term] at ht
+    simp only [handleSame]
+    split
+    · exact Outcome.stay s d
+    · rename_i hnl
+      split
+      · rename_i hle
+        exact outcome_step (Step1.snapIgnore s d src t k ents hm ht.symm hnl hle) send_mono
+          (fun m hmem => by simp at hmem; subst hmem; exact mem_send rfl)
+      · rename_i hgt
+        exact outcome_step (Step1.snapRestore s d src t k ents hm ht.symm hnl (by omega)) send_mono
+          (fun m hmem => by simp at hmem; subst hmem; exact mem_send rfl)
 
 /-- every handler call is a finite sequence of L1 steps that ends in the handler's node state and has sent (at
     least) the handler's responses -/
@@ -299,9 +319,10 @@ theorem send_many (i : Fin N) : ∀ (outs : List (Msg1 N)) (s : Sys1 N), (∀ m 
     have hstep : ∃ net1, Steps1 s ⟨s.nodes, net1⟩ ∧ (∀ x, s.net x → net1 x) ∧ net1 m := by
       rcases h m (by simp) with hin | ⟨hl, hm⟩
       · exact ⟨s.net, .refl _, fun _ h => h, hin⟩
-      · rcases hm with ⟨dst, prev, cnt, hp, rfl⟩ | ⟨dst, rfl⟩
+      · rcases hm with ⟨dst, prev, cnt, hp, rfl⟩ | ⟨dst, rfl⟩ | ⟨dst, k, h1, h2, h3, rfl⟩
         · exact ⟨_, .one (Step1.sendApp s i dst prev cnt hl hp), send_mono, mem_send rfl⟩
         · exact ⟨_, .one (Step1.sendBeat s i dst hl), send_mono, mem_send rfl⟩
+        · exact ⟨_, .one (Step1.sendSnap s i dst k hl ⟨h1, h2, h3⟩), send_mono, mem_send rfl⟩
     obtain ⟨net1, st, mono1, hin⟩ := hstep
     obtain ⟨net', sts, mono2, hall⟩ := ih ⟨s.nodes, net1⟩ (fun x hx => (h x (by simp [hx])).imp (mono1 x) id)
     refine ⟨net', st.trans sts, fun x hx => mono2 x (mono1 x hx), ?_⟩
